@@ -24,6 +24,18 @@ CHECKS = {
  'C03': dict(level='model_checking', technique='symbolic execution (z3) of take_bid + contract(): inductive step with ghost first-to-name table, BMC (K>=6) against an oracle that scans the explicit history for the true declarer',
              text='At FINISHED the interpreted contract() equals last bid, doubling status, board vulnerability and the first-to-name entry; before the end it is None; the table, flags and last bid follow the reference step from any invariant state; BMC covers both-partners/both-sides-named and superseded-double auctions up to K calls against the explicit history.',
              note='Trusted: as C01.', ref='§4 C03'),
+ 'C04': dict(level='model_checking', technique='symbolic execution (z3) of PlayingPhaseWithHands.play_card_by_player: inductive step from an arbitrary invariant state with hands as 52-bit sets; calc_highest summarised; BMC of the first tricks; exact history synthesis for counterexamples',
+             text='One play from any invariant state (any trick 1..13, 0..3 cards on the table, any contract, any hands, any card/seat): turn passes left inside a trick; on the fourth card the reference winner leads, exactly its side is credited, trick number advances, history gains (actual leader, four cards in order); constructor base case; has_done lemma; BMC from the real constructor over the first plays. Counterexamples are turned into a deal plus plays (earlier tricks synthesised by z3) and replayed.',
+             note='Trusted: interpreter (replay-validated), z3, the reference trick-winner rule; Set[Card] modelled as 52 Booleans + maintained size term (over-approximation).', ref='§4 C04'),
+ 'C05': dict(level='model_checking', technique='symbolic execution (z3): same inductive step with acceptance/refusal/conservation assertions on bit-sets; observer variant as product step; BMC partition check against the dealt hands',
+             text='Accepted iff seat on turn and card in that hand; refusal is ValueError and leaves all 5x52 bits, table, counts, history identical; accepted play moves exactly that bit from the hand to the played set; BMC: after every play hands and played cards partition the symbolic deal; single-seat observer: own/dummy plays checked against the known hand, refused plays change nothing.',
+             note='Trusted: as C04.', ref='§4 C05'),
+ 'C06': dict(level='model_checking', technique='symbolic execution (z3) of available_cards and its wrappers on an arbitrary 52-bit hand and symbolic led card; example player with random.choice as arbitrary element',
+             text='The set comprehension of the real source is evaluated over 52 symbolic membership bits: result equals the follow-suit rule bit for bit, is a subset of the hand, non-empty when the hand is; state wrappers from any invariant board state; RandomPlay.play returns a member of that set for every choice.',
+             note='Trusted: interpreter, z3, stub contract of random.choice.', ref='§4 C06'),
+ 'C11': dict(level='model_checking', technique='symbolic execution (z3): product inductive step of PlayingPhaseWithHands and ObservedPlayingPhase on the same symbolic play from related states (all four observer seats)',
+             text='Part (a) of the property: full-information game and single-seat observer, related pre-states, same symbolic (card, seat): whenever the full game accepts, the observer accepts and both agree again on contract, declarer, turn, trick number, leader, table, history, counts, own hand and dummy view. Parts (b) network client vs seat thread and (c) sessions are covered by the session-level checks when built (see level_note).',
+             note='Only the in-process observer clause is decided here so far; the network-client clause is stated as outside this check until the session machinery lands.', ref='§4 C11'),
 }
 
 
